@@ -119,6 +119,10 @@ def run_case(case, ctx):
         labels.add('n_dist==1')
     if len(grid['apertures']) == 1:
         labels.add('single_aperture')
+    if case.get('ap_count_by_filter') and case['format'] != 'v2wav':
+        labels.add('per_filter_aperture_tables')
+    if len(set(case['theta'])) < len(case['theta']):
+        labels.add('shared_angular_apertures')
     if max(case['theta']) * dkpc[1] * 1000. > grid['apertures'][-1]:
         labels.add('beyond_largest_aperture')
     compared = 0
@@ -138,7 +142,7 @@ def run_case(case, ctx):
                 bands = of.transform_source(src['flags'], src['flux'], src['err'])
                 refs_per_grid = []
                 for g in cand:
-                    refs_per_grid.append([of.Ref3D(bands, grid['flux'][m], grid['apertures'], case['theta'], k,
+                    refs_per_grid.append([of.Ref3D(bands, gen.tables_3d(case, m)[0], gen.tables_3d(case, m)[1], case['theta'], k,
                                                    av_range[0], av_range[1], g) for m in range(len(names))])
                 so = gen.source_object(src)
                 with must_succeed('Fitter.fit'), quiet():
